@@ -76,9 +76,12 @@ def witness(events: list[dict]) -> dict:
             'sc_ev': sc_ev, 'sp_tr': sp_tr, 'add': add}
 
 
-def encode(events: list[dict]) -> list[str]:
+def encode(events: list[dict], teardown: bool = False) -> list[str]:
     """event dicts (child-side order) → protocol lines of `nlvmodel trace`: one `e` line per event, preceded by the `h` lines
-    of the hidden steps (see `witness`)"""
+    of the hidden steps (see `witness`).  With `teardown` (streams of runs that ended by themselves) the hidden exit of the plugin
+    context (model D1t) is placed as late as it can be: right before the last event if that is the end of a trace (the main
+    thread's own trace ends after the exit), else at the very end — the model then demands that every other trace has ended by
+    then and that nothing but that one end follows."""
     I = Intern()
     w = witness(events)
     pend: list = []      # (kind, number) whose hint must wait for interned values
@@ -102,9 +105,19 @@ def encode(events: list[dict]) -> list[str]:
     for m, pos in w['pos_prompt'].items():
         w['add'](pos, (3, m, 0), f"h prompt {w['sp_tr'][m]}")
     out = ['reset']
+    close_at, close_line = None, 'h close - -'
+    if teardown:
+        close_at = len(events)
+        if events and events[-1]['_type'] == 'OnEndTrace':
+            close_at = len(events) - 1
+            st = [x for x in events if x['_type'] == 'OnStartTrace' and x['trace_no'] == events[-1]['trace_no']]
+            if st:
+                close_line = f"h close {st[-1]['thread_no']} {'-' if st[-1]['task_no'] is None else st[-1]['task_no']}"
     for i, e in enumerate(events):
         for _, line in sorted(w['hints'].get(i, [])):
             out.append(line)
+        if i == close_at:
+            out.append(close_line)
         t = e['_type']
         n = e.get('trace_no')
         if t == 'OnStartTrace':
@@ -125,6 +138,8 @@ def encode(events: list[dict]) -> list[str]:
             out.append(f"e ep {n} {e['prompt_no']} {I(e['command']) if e['command'] else 0}")
         elif t == 'OnWriteStdout':
             out.append(f"e so {n} {I('W' + e['text'])}")
+    if close_at == len(events):
+        out.append(close_line)
     out.append('end')
     return out
 
